@@ -122,6 +122,19 @@ func registerIntrinsics(e *Engine) {
 		return nil
 	})
 	prim("thorough", func(th *Thread, fn *ssa.Function, a []Value) Value { return mkBool(th.st.eng.cfg.Thorough) })
+	prim("verifMapOrders", func(th *Thread, fn *ssa.Function, a []Value) Value {
+		th.st.mapOrdersOff = !a[0].(*Term).Bool()
+		return nil
+	})
+	prim("noControlBytes", func(th *Thread, fn *ssa.Function, a []Value) Value {
+		r := tTrue
+		for _, x := range a[0].(Slice).a {
+			if b, ok := x.(*Term); ok {
+				r = mkAnd(r, mkCmp("bvuge", b, mkBV(8, 0x20)))
+			}
+		}
+		return r
+	})
 	prim("inEngine", func(th *Thread, fn *ssa.Function, a []Value) Value { return tTrue })
 	prim("lockHeld", func(th *Thread, fn *ssa.Function, a []Value) Value {
 		p := a[0].(*Value)
@@ -252,9 +265,8 @@ func registerIntrinsics(e *Engine) {
 			return concreteStr(strconv.FormatInt(n.Int(), 10))
 		}
 		tk := &Token{ns: mkBV(64, nsItoa), v: n, kind: kNumber, errv: n}
-		th.tokWF(tk)
 		st := th.st
-		st.solver.Assert(mkEq(th.tokKind(tk), mkBV(8, kNumber)))
+		st.solver.Assert(mkCmp("bvuge", th.tokLen(tk), mkBV(64, 1)))
 		neg := mkCmp("bvslt", n, mkBV(64, 0))
 		b0 := th.tokByte(tk, 0)
 		st.solver.Assert(mkIte(neg, mkEq(b0, mkBV(8, '-')), mkAnd(mkCmp("bvuge", b0, mkBV(8, '0')), mkCmp("bvule", b0, mkBV(8, '9')))))
